@@ -213,6 +213,40 @@ def reorder(ctx, obs, rule='REORDER'):
     obs.check(len(cs) >= 2, rule, q2, 'sort_by delegates the permutation to reorder (alpha and explicit order)',
               f'{len(cs)} reorder calls', '', where(prog, f2, f2.node))
     stable_sorts(ctx, obs, q2)
+    # what reaches reorder is a permutation (each position once): an argsort is; positions looked up with `list.index(label)` are
+    # FIRST occurrences - with a repeated label the same position is returned for every copy, one condition is duplicated and
+    # another one lost.  Accepted: a look-up that consumes positions (pop / remove / a running set of used positions), or a guard
+    # that raises when the labels are not unique.
+    for c in cs:
+        a = c.node.args[0] if c.node.args else None
+        if a is None:
+            continue
+        e = a
+        if isinstance(e, ast.Name):
+            vals = [d.rhs for i in r2.load_defs.get(id(e), ()) for d in [r2.defs[i]] if d.rhs is not None]
+            e = vals[0] if len(vals) == 1 else e
+        con = f'`{norm(c.node)[:50]}`: the order handed to reorder lists every position once'
+        idx_calls = [x for x in ast.walk(e) if isinstance(x, ast.Call) and isinstance(x.func, ast.Attribute) and x.func.attr == 'index']
+        if any(isinstance(x, ast.Call) and _leaf(x.func) in ('argsort', 'lexsort', 'arange', 'permutation') for x in ast.walk(e)) and not idx_calls:
+            obs.ok(rule, q2, con, 'a sorting permutation', where(prog, f2, c.node))
+        elif idx_calls:
+            guard = any(isinstance(x, ast.Call) and _leaf(x.func) in ('set', 'unique') for st in ast.walk(f2.node) if isinstance(st, ast.If)
+                        and any(isinstance(y, ast.Raise) for y in ast.walk(st)) for x in ast.walk(st.test)
+                        if any(isinstance(z, ast.Call) and _leaf(z.func) == 'len' for z in ast.walk(st.test)))
+            if guard:
+                obs.ok(rule, q2, con, 'repeated labels are rejected before the look-up', where(prog, f2, c.node))
+            else:
+                obs.bad(rule, q2, con, f'`{norm(idx_calls[0])[:50]}` returns the FIRST position of a label: when a label occurs more than once '
+                        f'every copy maps to the same position - that condition is duplicated (with a zero between its copies) and the '
+                        f'others of that label are dropped', where(prog, f2, c.node))
+        elif any(isinstance(x, ast.Call) and isinstance(x.func, ast.Attribute) and x.func.attr in ('pop', 'popleft', 'remove') for x in ast.walk(e)):
+            obs.ok(rule, q2, con, 'every looked-up position is consumed (pop): copies of a label get successive positions', where(prog, f2, c.node))
+        else:
+            obs.unk(rule, q2, con, f'construction of `{norm(a)[:50]}` not recognised', where(prog, f2, c.node))
+
+
+def _leaf(fn):
+    return fn.attr if isinstance(fn, ast.Attribute) else (fn.id if isinstance(fn, ast.Name) else '')
 
 
 def inplace_scope(ctx, obs, rule='PURE-scope'):
